@@ -55,6 +55,8 @@ type TypeSpec struct {
 	DynType   map[string]string
 	Invs      []*Clause
 	Owned     map[string]string // field -> owner lock expression (informational)
+	AtomicCell map[string]bool   // pointer fields whose pointee is accessed only through sync/atomic
+	Rely      map[string]*SExpr // field -> relation between `old` and `new` values allowed to other goroutines
 }
 
 type GhostField struct {
@@ -64,6 +66,7 @@ type GhostField struct {
 }
 
 type Define struct {
+	Opaque bool
 	Name   string
 	Params []string
 	PTypes []string
@@ -82,6 +85,7 @@ type FuncSpec struct {
 	Pkg       string
 	Requires  []*Clause
 	Ensures   []*Clause
+	REnsures  []*Clause // proved with rely-havoc of atomic cells switched on
 	Maintains []*Clause // Text = variable name
 	Assigns   []string
 	HasAssigns bool
@@ -99,9 +103,24 @@ type FuncSpec struct {
 	File      string
 	Line      int
 	NoHavoc   bool
+	Reveal    []string
+}
+
+// Lemma: a quantified fact about opaque spec functions, proved once (with the definitions
+// revealed) and available everywhere as an axiom triggered on the opaque application.
+type Lemma struct {
+	Name   string
+	Props  []string
+	Params []string
+	PTypes []string
+	Body   *SExpr
+	Text   string
+	File   string
+	Line   int
 }
 
 type Specs struct {
+	Lemmas  []*Lemma
 	Types   map[string]*TypeSpec
 	Funcs   map[string]*FuncSpec
 	Ghosts  map[string]*GhostField // "pkg.Type.name"
@@ -234,7 +253,7 @@ func (sp *Specs) parseFile(repo, file string) error {
 		switch kw {
 		case "type":
 			name := qualify(pkg, rest)
-			curT = &TypeSpec{Name: name, Guarded: map[string]string{}, Atomic: map[string]bool{}, Immutable: map[string]bool{}, DynType: map[string]string{}, Owned: map[string]string{}}
+			curT = &TypeSpec{Name: name, Guarded: map[string]string{}, Atomic: map[string]bool{}, Immutable: map[string]bool{}, DynType: map[string]string{}, Owned: map[string]string{}, AtomicCell: map[string]bool{}, Rely: map[string]*SExpr{}}
 			sp.Types[name] = curT
 			curF = nil
 		case "func":
@@ -260,12 +279,40 @@ func (sp *Specs) parseFile(repo, file string) error {
 			i := strings.LastIndex(full, ".")
 			g := &GhostField{Owner: full[:i], Name: full[i+1:], Type: strings.Join(parts[1:], " ")}
 			sp.Ghosts[full] = g
-		case "define":
+		case "define", "opaque":
 			d, err := parseDefine(rest)
 			if err != nil {
 				return fmt.Errorf("%s:%d: %v", file, pendingLine, err)
 			}
+			d.Opaque = kw == "opaque"
 			sp.Defines[d.Name] = d
+		case "lemma":
+			// lemma[Cxx] name(a T, b U): expr
+			i := strings.Index(rest, "(")
+			j := strings.Index(rest, "):")
+			if i < 0 || j < i {
+				return fmt.Errorf("%s:%d: lemma name(a T, ...): expr", file, pendingLine)
+			}
+			lm := &Lemma{Name: qualify(pkg, "lemma."+strings.TrimSpace(rest[:i])), Props: props, File: file, Line: pendingLine, Text: strings.TrimSpace(rest[j+2:])}
+			for _, pp := range splitList(rest[i+1 : j]) {
+				fs := strings.Fields(pp)
+				if len(fs) != 2 {
+					return fmt.Errorf("%s:%d: lemma parameter %q", file, pendingLine, pp)
+				}
+				lm.Params = append(lm.Params, fs[0])
+				lm.PTypes = append(lm.PTypes, fs[1])
+			}
+			e, err := parseSpecExpr(lm.Text)
+			if err != nil {
+				return fmt.Errorf("%s:%d: %v", file, pendingLine, err)
+			}
+			lm.Body = e
+			sp.Lemmas = append(sp.Lemmas, lm)
+		case "reveal":
+			if curF == nil {
+				return fmt.Errorf("%s:%d: reveal outside func", file, pendingLine)
+			}
+			curF.Reveal = append(curF.Reveal, splitList(rest)...)
 		case "guarded":
 			if curT == nil {
 				return fmt.Errorf("%s:%d: guarded outside type", file, pendingLine)
@@ -298,6 +345,17 @@ func (sp *Specs) parseFile(repo, file string) error {
 			for _, f := range splitList(rest[i+1:]) {
 				curT.Owned[f] = strings.TrimSpace(rest[:i])
 			}
+		case "atomiccell":
+			for _, f := range splitList(strings.TrimPrefix(rest, ":")) {
+				curT.AtomicCell[f] = true
+			}
+		case "rely":
+			i := strings.Index(rest, ":")
+			e, err := parseSpecExpr(strings.TrimSpace(rest[i+1:]))
+			if err != nil {
+				return fmt.Errorf("%s:%d: %v", file, pendingLine, err)
+			}
+			curT.Rely[strings.TrimSpace(rest[:i])] = e
 		case "dyntype":
 			i := strings.Index(rest, ":")
 			curT.DynType[strings.TrimSpace(rest[:i])] = strings.TrimSpace(rest[i+1:])
@@ -310,7 +368,7 @@ func (sp *Specs) parseFile(repo, file string) error {
 				return err
 			}
 			curT.Invs = append(curT.Invs, c)
-		case "requires", "ensures", "relational":
+		case "requires", "ensures", "relational", "rensures":
 			if curF == nil {
 				return fmt.Errorf("%s:%d: %s outside func", file, pendingLine, kw)
 			}
@@ -325,6 +383,8 @@ func (sp *Specs) parseFile(repo, file string) error {
 				curF.Ensures = append(curF.Ensures, c)
 			case "relational":
 				curF.Relational = append(curF.Relational, c)
+			case "rensures":
+				curF.REnsures = append(curF.REnsures, c)
 			}
 		case "maintains":
 			curF.Maintains = append(curF.Maintains, &Clause{Kind: "maintains", Props: props, Text: rest, File: file, Line: pendingLine})
@@ -338,6 +398,10 @@ func (sp *Specs) parseFile(repo, file string) error {
 			n, err := strconv.Atoi(parts[0])
 			if err != nil || len(parts) < 3 {
 				return fmt.Errorf("%s:%d: loop N invariant|assigns ...", file, pendingLine)
+			}
+			if i := strings.Index(parts[1], "["); i > 0 && strings.HasSuffix(parts[1], "]") {
+				props = splitProps(parts[1][i+1 : len(parts[1])-1])
+				parts[1] = parts[1][:i]
 			}
 			switch parts[1] {
 			case "invariant":
